@@ -1269,6 +1269,8 @@ class QueryBuilder(Selectable, Term):
 
     def get_sql(self, with_alias: bool = False, subquery: bool = False, **kwargs: Any) -> str:
         self._set_kwargs_defaults(kwargs)
+        # GROUP BY alias use is a convention of the outermost statement's dialect, like the quote characters
+        kwargs.setdefault("groupby_alias", True)
         if not (self._selects or self._insert_table or self._delete_from or self._update_table):
             return ""
         if self._insert_table and not (self._selects or self._values):
